@@ -252,8 +252,18 @@ def d2_d3(ctx, rep):
             if idx is None or want is None:
                 rep.undecided('D3.index', fn, ap, f'{clsn}.{meth}: the index given to the new edge is not derived', construct=f'{clsn}.{meth} edge index')
             else:
-                rep.check('D3.index', fn, ap, nf.nf(idx) == want, f'{clsn}.{meth}: edge index = len({sname}) - 1',
-                          f'{clsn}.{meth}: the edge index is {short(idx)}, not its position', construct=f'{clsn}.{meth} edge index')
+                got = nf.nf(idx)
+                from ..exprnf import nf_names
+                # recognised and different: an expression in len(S) and numbers only; or len(self.edges) which is the position as well
+                alt = nf.nf(ast.parse(f'len({fn.self_name}.edges)', mode='eval').body)
+                simple = not nf_names(got) - {sname} and 'len' in repr(got)
+                if got == want or got == alt:
+                    rep.ok('D3.index', fn, ap, f'{clsn}.{meth}: edge index = {short(idx)} (its position)', construct=f'{clsn}.{meth} edge index')
+                elif simple or isinstance(idx, ast.Constant):
+                    rep.bad('D3.index', fn, ap, f'{clsn}.{meth}: the edge index is {short(idx)}, not its position', construct=f'{clsn}.{meth} edge index')
+                else:
+                    rep.undecided('D3.index', fn, ap, f'{clsn}.{meth}: the edge index `{short(idx)}` is not an expression in the size of the visited set: whether it is the position is not derived',
+                                  construct=f'{clsn}.{meth} edge index')
             # the new node is added after the edge is indexed
             if main_adds:
                 rep.check('D3.index', fn, main_adds[0], stmt_of(main_adds[0]).lineno > st.lineno, 'the node set grows after the edge was indexed',
